@@ -19,7 +19,7 @@ BUDGET = {"quick": 600, "thorough": 3600}
 
 
 def plan(tier):
-    n = 120 if tier == "quick" else 2000
+    n = 360 if tier == "quick" else 2000
     return [{"kind": "hyp", "n": n} for _ in range(16)]
 
 
